@@ -30,7 +30,7 @@ COMPONENTS = {
     "real": ["eolib.data.EoWriter (sanitisation on)", "eolib.data.EoReader (chunked mode)", "codecs"],
     "stub_or_harness": ["sender/receiver scripts (version-skewed read plans)", "expected-value computation"],
 }
-PROBES = ["unchunked_overread_inside_chunk", "mode_reassigned_mid_stream", "generated_serializer_session", "generated_deserializer_session", "unsanitised_y_in_header", "overread_spanning_integer", "empty_chunk", "string_only_y_diaeresis", "last_chunk_overread",
+PROBES = ["chunked_section_of_structs_only", "unchunked_overread_inside_chunk", "mode_reassigned_mid_stream", "generated_serializer_session", "generated_deserializer_session", "unsanitised_y_in_header", "overread_spanning_integer", "empty_chunk", "string_only_y_diaeresis", "last_chunk_overread",
           "underread_then_surplus", "first_byte_y_diaeresis", "last_byte_y_diaeresis", "one_char_y_diaeresis"]
 FAULT_KINDS = ["under_read", "over_read"]
 
@@ -99,6 +99,12 @@ def generate(streams, tier):
             "skip": [rng.random() < 0.3 for _ in range(6)], "extra": [rng.random() < 0.3 for _ in range(6)],
         }
         plan["generated"]["a"] = (plan["generated"]["a"] + "abc")[:3]
+        if rng.random() < 0.3:
+            # a chunked section whose only members are structures: the strings live one level down
+            n = rng.randrange(0, 5)
+            plan["generated"] = {"variant": "Roster",
+                                 "members": [[gen_int_in_range(vr, "short"), pool.get(vr)] for _ in range(n + 1)],
+                                 "skip": [rng.random() < 0.3 for _ in range(n + 1)], "extra": [rng.random() < 0.3 for _ in range(n + 1)]}
     elif rng.random() < 0.05:
         # the RECEIVER is a generated deserializer; the sender is a hand-driven EoWriter of another protocol version
         if rng.random() < 0.3:
@@ -132,7 +138,7 @@ def c06_tree():
     t = skeleton_tree()
     t["net/protocol.xml"] = _HDR + """<protocol>
     <enum name="PacketFamily" type="byte"><value name="Talk">1</value></enum>
-    <enum name="PacketAction" type="byte"><value name="Tell">1</value><value name="Report">2</value><value name="List">3</value><value name="Pairs">4</value><value name="Opts">5</value></enum>
+    <enum name="PacketAction" type="byte"><value name="Tell">1</value><value name="Report">2</value><value name="List">3</value><value name="Pairs">4</value><value name="Opts">5</value><value name="Roster">6</value></enum>
     <struct name="Pair">
         <chunked>
             <field name="id" type="char"/>
@@ -155,9 +161,15 @@ def c06_tree():
         <field name="flag" type="char"/>
         <field name="tail" type="string"/>
     </struct>
+    <struct name="Member">
+        <field name="rank" type="short"/>
+        <field name="name" type="string"/>
+    </struct>
     <struct name="InnerPlain">
         <field name="a" type="string" length="3"/>
         <field name="b" type="short"/>
+        <field name="mark" type="string" length="3">\u00ffzz</field>
+        <field type="string" length="2">z\u00ff</field>
     </struct>
 </protocol>
 """
@@ -202,6 +214,13 @@ def c06_tree():
             <field name="o3" type="char" optional="true"/>
         </chunked>
     </packet>
+    <packet family="Talk" action="Roster">
+        <chunked>
+            <field name="leader" type="Member"/>
+            <break/>
+            <array name="members" type="Member" delimited="true"/>
+        </chunked>
+    </packet>
     <packet family="Talk" action="Pairs">
         <field name="tag" type="char"/>
         <chunked>
@@ -226,11 +245,15 @@ def run_generated(plan, env, res, tr, fail):
     EoReader = importlib.import_module("eolib.data.eo_reader").EoReader
     net = importlib.import_module("eolib.protocol._generated.net")
     srv = importlib.import_module("eolib.protocol._generated.net.server")
+    if g["variant"] == "Roster":
+        return run_generated_roster(g, net, srv, EoWriter, EoReader, res, tr, fail)
     inner_cls = getattr(net, g["variant"])
     pkt_cls = srv.TalkTellServerPacket if g["variant"] == "InnerChunked" else srv.TalkReportServerPacket
     kind = g.get("kind", 2)
     case = getattr(pkt_cls, "KindData1")(note=g.get("note", "")) if kind == 1 else None
-    pkt = pkt_cls(h=g["h"], s1=g["s1"], inner=inner_cls(a=g["a"], b=g["b"]), s2=g["s2"], kind=kind, kind_data=case,
+    import inspect
+    extra = {"mark": "\u00ffzz"} if "mark" in inspect.signature(inner_cls.__init__).parameters else {}
+    pkt = pkt_cls(h=g["h"], s1=g["s1"], inner=inner_cls(a=g["a"], b=g["b"], **extra), s2=g["s2"], kind=kind, kind_data=case,
                   k=g["k"], s3=g["s3"])
     w = EoWriter()
     pkt.write(w)
@@ -243,7 +266,7 @@ def run_generated(plan, env, res, tr, fail):
     if g["variant"] == "InnerChunked":
         chunks = [[("s", g["s1"])], [("s", g["a"])], [("short", g["b"])], [("f3", "\u00ffes"), ("s", g["s2"])], kchunk, [("three", g["k"]), ("e", g["s3"])]]
     else:
-        chunks = [[("s", g["s1"])], [("f3", g["a"]), ("short", g["b"])], [("f3", "\u00ffes"), ("s", g["s2"])], kchunk, [("three", g["k"]), ("e", g["s3"])]]
+        chunks = [[("s", g["s1"])], [("f3", g["a"]), ("short", g["b"]), ("f3", "\u00ffzz"), ("f2", "z\u00ff")], [("f3", "\u00ffes"), ("s", g["s2"])], kchunk, [("three", g["k"]), ("e", g["s3"])]]
     if body.count(0xFF) != len(chunks) - 1:
         return fail("break-in-payload", "generated-serializer",
                     f"{pkt_cls.__name__} wrote {body.count(0xFF)} break bytes after the header for {len(chunks)} chunks: "
@@ -261,6 +284,8 @@ def run_generated(plan, env, res, tr, fail):
                     got, want = r.get_encoded_string(), image(val)
                 elif kind == "f3":
                     got, want = r.get_fixed_string(3), image(val)
+                elif kind == "f2":
+                    got, want = r.get_fixed_string(2), image(val)
                 else:
                     got, want = getattr(r, "get_" + kind)(), val
                 if got != want:
@@ -271,6 +296,42 @@ def run_generated(plan, env, res, tr, fail):
         r.next_chunk()
     if r.remaining != 0:
         return fail("not-at-end", "generated-serializer", f"remaining={r.remaining} after the last chunk", 0)
+    return None
+
+
+def run_generated_roster(g, net, srv, EoWriter, EoReader, res, tr, fail):
+    mk = lambda m: net.Member(rank=m[0], name=m[1])
+    pkt = srv.TalkRosterServerPacket(leader=mk(g["members"][0]), members=[mk(m) for m in g["members"][1:]])
+    w = EoWriter()
+    pkt.write(w)
+    out = bytes(w.to_bytearray())
+    tr.ev("generated", "Roster", out.hex())
+    res.count("probe.generated_serializer_session")
+    res.count("probe.chunked_section_of_structs_only")
+    n = len(g["members"])
+    if out.count(0xFF) != n:
+        return fail("break-in-payload", "generated-serializer",
+                    f"TalkRosterServerPacket wrote {out.count(0xFF)} break bytes for {n} delimited members: {out.hex()} "
+                    f"(members {g['members']})", 0)
+    r = EoReader(out)
+    r.chunked_reading_mode = True
+    for ci, (rank, name) in enumerate(g["members"]):
+        if not g["skip"][ci]:
+            got = (r.get_short(), r.get_string())
+            if got != (rank, image(name)):
+                return fail("field-value", "generated-serializer",
+                            f"TalkRosterServerPacket: member {ci} {(rank, name)!r} read as {got!r} (wire {out.hex()})", ci)
+            if g["extra"][ci] and r.get_int() != 0:
+                return fail("surplus-value", "generated-serializer", f"TalkRosterServerPacket: surplus read after member {ci} is not 0", ci)
+        r.next_chunk()
+    if r.remaining != 0:
+        return fail("not-at-end", "generated-serializer", f"remaining={r.remaining} after the last member", 0)
+    # ... and the generated receiver agrees
+    back = srv.TalkRosterServerPacket.deserialize(EoReader(out))
+    got = [(m.rank, m.name) for m in [back.leader] + list(back.members)]
+    want = [(m[0], image(m[1])) for m in g["members"]]
+    if got != want:
+        return fail("field-value", "generated-serializer", f"TalkRosterServerPacket deserialized {got!r}, expected {want!r} (wire {out.hex()})", 0)
     return None
 
 
